@@ -81,8 +81,8 @@ Definition selftest : list (nat * Z) :=
   mismatches [ {| w_prefix := []; w_min := 1; w_helpers := [EAdd 5; EFin]; w_obs := 0 |};
                {| w_prefix := [EAdd 5; EFin]; w_min := 1; w_helpers := []; w_obs := 0 |};
                {| w_prefix := [SetDL (Some 40)]; w_min := 1; w_helpers := [Tick 40]; w_obs := 1 |};
-               {| w_prefix := []; w_min := 1; w_helpers := [LLoad; LCas; LNotify; LClean]; w_obs := 3 |};
-               {| w_prefix := []; w_min := 1; w_helpers := [LLoad; LCas; LNotify; LClean]; w_obs := 2 |};
+               {| w_prefix := []; w_min := 1; w_helpers := [LLoad; LCas; LClean; LNotify]; w_obs := 3 |};
+               {| w_prefix := []; w_min := 1; w_helpers := [LLoad; LCas; LClean; LNotify]; w_obs := 2 |};
                {| w_prefix := []; w_min := 1; w_helpers := [PClose1; PClose2]; w_obs := 2 |};
                {| w_prefix := []; w_min := 1; w_helpers := [SClose]; w_obs := 3 |};
                {| w_prefix := [EAdd 4; EFin]; w_min := 8; w_helpers := [LDefer1; LDefer2; SClose; LLoad; LCas; LNotify; LClean]; w_obs := 3 |};
